@@ -205,6 +205,23 @@ def universe(tier, seed, shard, nshards):
                         for pen, ms in ((None, None), (0.5, None), (None, 1.2)):
                             yield 'U3-shapes', max(r, c) <= 4, {'s1': univ.catalogue(r, A, k1), 's2': univ.catalogue(c, A, k2), 'window': w,
                                                               'penalty': pen, 'psi': psi, 'max_step': ms, 'inner': 'sq' if (k1 + k2) % 2 == 0 else 'eu'}
+    for r in range(1, 13):
+        for c in range(1, 13):
+            if max(r, c) < 7:
+                continue
+            idx += 1
+            if idx % nshards != shard:
+                continue
+            for w in (1, 2, 3):
+                for psi in (None, 1, (0, 0, 0, 2), (0, 2, 0, 0), (2, 0, 0, 0), (0, 0, 2, 0)):
+                    if psi is not None:
+                        p = oracles.norm_psi(psi)
+                        if oracles.psi_degenerate(p, r, c) or max(p[:2]) > r or max(p[2:]) > c:
+                            continue
+                    for (k1, k2) in ((0, 3), (5, 0)):
+                        for pen in (None, 0.5):
+                            yield 'U5-long', False, {'s1': univ.catalogue(r, A, k1), 's2': univ.catalogue(c, A, k2), 'window': w, 'penalty': pen, 'psi': psi,
+                                                     'max_step': None, 'inner': 'sq' if (r + c) % 2 else 'eu'}
     A2 = univ.alphabet(univ.BASE2, seed)
     sers2 = univ.series_nd(A2, 2, 1, 2)
     for s1 in sers2:
@@ -249,7 +266,7 @@ def run(ctx):
              'non-trivial = more than one admissible path and penalty, psi or band active',
         bounds={'alphabet': list(univ.alphabet(univ.BASE3, ctx.seed)),
                 'U1': 'all pairs len 1..3 x window{None,1,2} x penalty{None,.5,2} x max_step{None,1.2} x inner x 11 psi forms; custom start from every finite cell',
-                'U3': 'all shapes up to %d x every window x 9 psi forms x catalogue values' % (6 if ctx.thorough else 5), 'U4': 'ndim 2, len 1..2'},
+                'U3': 'all shapes up to %d x every window x 9 psi forms x catalogue values' % (6 if ctx.thorough else 5), 'U4': 'ndim 2, len 1..2', 'U5': 'long thin bands: every shape up to 12x12 with max >= 7, windows 1..3, 6 psi forms'},
         assumptions=['engines may return different optimal paths: no path equality is demanded', 'cases without any admissible path (reference inf) are not judged'],
         t0=ctx.t0)
 
